@@ -93,8 +93,7 @@ theorem exOr_logicModel : LogicModel (exOr : Model (Ext K)) (exOr : Model (Ext K
   simp only [exOr, List.mem_singleton] at hc
   subst hc
   refine ⟨⟨hvars, by simp [FinE, exOrC, finiteLits, finiteLitsL], ?_⟩,
-    ⟨by simp [exOrC, varsOf], by simp [FinE, exOrC, finiteLits, isFin], fun ρ _ => by simp [exOrC, NC]⟩,
-    VerdictDef.ofAssert rfl⟩
+    ⟨by simp [exOrC, varsOf], by simp [FinE, exOrC, finiteLits, isFin], fun ρ _ => by simp [exOrC, NC]⟩⟩
   · have hdef : DefOn (exOr : Model (Ext K)).domain (.or [.var "a", .var "b"]) := fun ρ _ =>
       ⟨_, eval_or_of (vs := [ρ "a", ρ "b"]) (by simp [evalList, eval])⟩
     exact NCon.ofLO (loOn_of_operandsOK hnd
